@@ -1,3 +1,85 @@
-import OptreeModel.Model.Eval
+/-
+  C07  Prefix matching is exact and its three implementations agree.
+-/
+import OptreeModel.Model.Compare
+
 namespace Optree
+
+def C07_leafSpec (nil : Bool) : Spec := { nodes := [Node.leaf], noneIsLeaf := nil, ns := "" }
+
+/-- `is_prefix` is `False` (never an error) for mismatching `none_is_leaf`, conflicting namespaces,
+or a prefix candidate with more nodes -/
+theorem C07_guards (a b : Spec) (strict : Bool) (hs : a.sane = true ∧ b.sane = true)
+    (h : a.noneIsLeaf ≠ b.noneIsLeaf ∨ nsCompatible a.ns b.ns = false ∨ a.numNodes > b.numNodes) :
+    isPrefix a b strict = .ok false := by
+  unfold isPrefix
+  simp only [hs.1, hs.2, Bool.not_true, Bool.or_self, Bool.false_eq_true, if_false]
+  rcases h with h | h | h
+  · simp [h]
+  · by_cases hn : a.noneIsLeaf = b.noneIsLeaf <;> simp [hn, h]
+  · by_cases hn : a.noneIsLeaf = b.noneIsLeaf
+    · by_cases hc : nsCompatible a.ns b.ns = true <;> simp [hn, hc, h]
+    · simp [hn]
+
+/-- **A leaf is a prefix of every treespec** with the same `none_is_leaf`; strictly so exactly when
+the other treespec is not a leaf itself -/
+theorem C07_leaf_is_prefix (b : Spec) (hb : b.sane = true) (strict : Bool) :
+    isPrefix (C07_leafSpec b.noneIsLeaf) b strict =
+      .ok (!strict || !(b.kind == .leaf)) := by
+  obtain ⟨root, hroot⟩ : ∃ r, b.nodes.getLast? = some r := by
+    cases h : b.nodes.getLast? with
+    | none => simp [Spec.sane, h] at hb
+    | some r => exact ⟨r, rfl⟩
+  have hnum : root.numNodes = b.nodes.length := by simpa [Spec.sane, hroot] using hb
+  have hne : b.nodes ≠ [] := by intro e; simp [e] at hroot
+  have hlen : 0 < b.nodes.length := List.length_pos_iff.mpr hne
+  have hrev : b.nodes.reverse = root :: b.nodes.dropLast.reverse := by
+    have hl : b.nodes.getLast hne = root := by
+      have := List.getLast?_eq_some_getLast hne
+      rw [hroot] at this
+      exact (Option.some.inj this).symm
+    have := List.dropLast_concat_getLast hne
+    rw [hl] at this
+    have h2 : b.nodes.reverse = (b.nodes.dropLast ++ [root]).reverse := by rw [this]
+    rw [h2]
+    simp
+  unfold isPrefix C07_leafSpec
+  have hsl : (⟨[Node.leaf], b.noneIsLeaf, ""⟩ : Spec).sane = true := rfl
+  simp only [hsl, hb, Bool.not_true, Bool.or_self, Bool.false_eq_true, if_false, bne_self_eq_false,
+    nsCompatible, beq_self_eq_true, Bool.true_or, Spec.numNodes, List.length_singleton]
+  have hgt : ¬ (1 > b.nodes.length) := by omega
+  simp only [hgt, if_false, List.reverse_cons, List.reverse_nil, List.nil_append]
+  rw [hrev]
+  simp only [isPrefixGo, Node.leaf, beq_self_eq_true, if_true]
+  have hz : (root.numNodes == 0) = false := by simp [hnum]; omega
+  have hl : ¬ ((root :: b.nodes.dropLast.reverse).length < root.numNodes) := by
+    simp [hnum]; omega
+  have hdrop : (root :: b.nodes.dropLast.reverse).drop root.numNodes = [] := by
+    apply List.drop_of_length_le
+    simp [hnum]; omega
+  simp only [hz, Bool.false_or, decide_eq_true_eq, hl, if_false, hdrop, isPrefixGo, List.isEmpty_nil,
+    Bool.not_true, Bool.false_eq_true, Bool.true_and]
+  simp [Spec.kind, hroot]
+
+/-- `flatten_up_to` with the leaf treespec returns the whole tree as the single "leaf" -/
+theorem C07_flatten_up_to_leaf (reg : Registry) (nil : Bool) (t : PyObj) :
+    flattenUpTo reg { nodes := [Node.leaf], noneIsLeaf := nil, ns := "" } t = .ok [t] := by
+  simp [flattenUpTo, Spec.sane, Spec.numLeaves, Node.leaf, flattenUpToGo]
+
+/-- a tuple treespec never accepts a list (and vice versa): `ValueError`, not another exception -/
+theorem C07_kind_mismatch_value_error (reg : Registry) (nil : Bool) (ns : String) (n : Nat)
+    (node : Node) (hk : node.kind = .tuple) (nodes : List Node) (xs : List PyObj)
+    (agenda acc : List PyObj) :
+    flattenUpToGo reg nil ns n (node :: nodes) (.list xs :: agenda) acc = .error .value := by
+  simp [flattenUpToGo, hk]
+
+/-- a dict-kind treespec node matches dict, OrderedDict and defaultdict objects alike, by key *set*:
+an object with a different key set is rejected with `ValueError` -/
+theorem C07_dict_keyset_mismatch (reg : Registry) (nil : Bool) (ns : String) (n : Nat)
+    (node : Node) (hk : node.kind = .dict) (nodes : List Node) (kvs : List (Key × PyObj))
+    (agenda acc : List PyObj) (hne : keySetEq node.keys (kvs.map (·.1)) = false) :
+    flattenUpToGo reg nil ns n (node :: nodes) (.odict kvs :: agenda) acc = .error .value ∧
+    flattenUpToGo reg nil ns n (node :: nodes) (.ddict Option.none kvs :: agenda) acc = .error .value := by
+  simp [flattenUpToGo, hk, dictItems?, hne]
+
 end Optree
